@@ -264,7 +264,8 @@ fn decode_address(mut buf: Bytes) -> IoResult<Option<TargetAddress>> {
     if buf.is_empty() {
         return Ok(None);
     }
-    if buf.len() < 8 {
+    // tag and length; the value is checked against the length below
+    if buf.len() < 2 {
         return Err(IoError::new(ErrorKind::InvalidInput, "bad header"));
     }
     let tag = buf.get_u8();
